@@ -159,6 +159,7 @@ CHECKS = {
         pkg="./c20", level="exploration",
         runs=[
             dict(name="fold", run="^TestPropFold$", checks=(500, 5000), shards=(4, 16), shrinktime="20s"),
+            dict(name="concurrent", run="^TestPropConcurrentFold$", checks=(60, 600), shards=(4, 16), shrinktime="5s"),
         ],
     ),
     "C16": dict(
